@@ -105,7 +105,7 @@ def _extract_one(args):
     return unit, 0, ""
 
 
-def _prune_cache(limit_bytes=700 * 1024 * 1024):
+def _prune_cache(limit_bytes=2048 * 1024 * 1024):
     try:
         ents = []
         for f in os.listdir(CACHE):
@@ -399,7 +399,9 @@ def load_program(units=None):
     if os.path.exists(pk):
         try:
             with open(pk, "rb") as fh:
-                return pickle.load(fh)
+                prog = pickle.load(fh)
+            os.utime(pk, None)
+            return prog
         except Exception:
             pass
     p = Program(paths)
